@@ -23,6 +23,9 @@ Line-protocol driver for C03 (see `harness/corr/c03.go` and `extra/C03.py`).
   cmd <name> <W,R,B,K> <flags> <n> <atleast> <ncols> <sort> <delim> <nomatch> <files>
                                       histo / table / heatmap / spark / bars end to end (`Model/C03Cmd.lean`): the tuning is
                                       ignored – the answer is the sequential reference of the concatenated files
+  reducec <W,R,B,K> <flags> <initial> <sort> <groups> <accums> <nomatch> <files>
+                                      `rare reduce` with order-insensitive accumulators on several files under free tuning:
+                                      the answer is `reduce` on the concatenated elements
   reduce <flags> <initial> <sort> <groups> <accums> <nomatch> <elements>
                                       `rare reduce` end to end (`Rare.C03.reduceRun`): set-up, sampling, final render
                                       (as text with runs of spaces squashed), `--csv` text, exit status
@@ -249,6 +252,12 @@ def handle : List String → String
       | some t => s!"ok {Hex.enc t}"
       | none => "unmodelled no-finite-mean"
     | none => "bad-args"
+  | ["reducec", _tune, fl, ini, srt, gs, acs, nm, files] =>
+    -- free tuning, several files, order-insensitive accumulators: the sequential reference of the concatenated elements
+    match nat? fl, Hex.dec ini, (if srt = "-" then some none else (Hex.dec srt).map some), decHexList gs, decHexList acs,
+        nat? nm, (files.splitOn "|").mapM decHexList with
+    | some fl, some ini, some srt, some gs, some acs, some nm, some files => reduceOp fl ini srt gs acs nm files.flatten
+    | _, _, _, _, _, _, _ => "bad-args"
   | ["reduce", fl, ini, srt, gs, acs, nm, els] =>
     match nat? fl, Hex.dec ini, (if srt = "-" then some none else (Hex.dec srt).map some), decHexList gs, decHexList acs,
         nat? nm, decHexList els with
